@@ -6,7 +6,7 @@ import itertools
 
 from ..kernel import Chooser
 from ..lazy import seq
-from ..seqcheck import explore_task
+from ..seqcheck import explore_task, run_world
 from ..tracelib import split_calls
 
 PID = "C08"
@@ -140,6 +140,16 @@ def tasks(tier):
         cfg = dict(M=2, alphabet=ENDINGS, breaker=BRK[init], attempt_timeout=2, durs=[0, 3],
                    dur_free=True, max_unknown=None)
         out.append({"family": "endings-attempt-timeout", "cfg": cfg, "entry": e, "bound": 0})
+    # the sync attempt timeout on the library's real threads: the timed-out attempt of an admitted
+    # call (a probe included) finishes late - during the backoff sleep, while the next attempt
+    # runs, or after the call has ended (DESIGN 11.8)
+    for init, e in itertools.product(BRK, ["Policy.call", "Policy.execute", "RetryPolicy.call"]):
+        cfg = dict(M=2, alphabet=["ok", "x:T", "r:T"] if tier == "thorough" else ["ok", "x:T"],
+                   breaker=BRK[init], attempt_timeout=1, durs=[0, 10], real_executor=True,
+                   late_menu=["ok", "x:T"], max_unknown=None, handler="call", handler_menu=["SLEEP"],
+                   sleeper="call")
+        out.append({"family": "endings-late-attempt", "cfg": cfg, "entry": e, "bound": 1,
+                    "selfcheck": 0})
     return out
 
 
@@ -161,8 +171,9 @@ def monitor(w, cfg, probe_allowed):
 
 def run_fault(cfg, entry, ch):
     full = seq.mkcfg(**cfg)
-    w = seq.World(full, ch)
-    w.call(entry)
+    w, judge = run_world(full, entry, ch)
+    if not judge:
+        return w, []
     w.tick(full["breaker"]["recovery"])
     from redress.circuit import CircuitBreaker
     # an observer (health check, metrics exporter) looks at the state first: reading it must
